@@ -878,6 +878,33 @@ fn c08(out: &mut Out) {
             }
         }
     }
+    // through grave goods and last will at disconnect: they run with the client's own (restricted) authority
+    cases += 1;
+    let r = catch_unwind(AssertUnwindSafe(|| rt.block_on(async {
+        let cfg = worterbuch::Config::new(None).await.expect("config");
+        let mut wb = Worterbuch::with_config(cfg);
+        let keep: Vec<String> = vec!["$SYS/version".into(), "$SYS/sentinel".into(), oth("clientName")];
+        for p in &keep { wb.set(p.clone(), json!("server"), internal, true).await.expect("internal set"); }
+        wb.set("user/keep".into(), json!(1), internal, true).await.expect("set");
+        wb.set("user/bury".into(), json!(1), internal, true).await.expect("set");
+        let g1 = wb.set(own("graveGoods"), json!(["$SYS/sentinel", "$SYS/#", "user/bury", format!("$SYS/clients/{other}/#")]), me, false).await;
+        let g2 = wb.set(own("lastWill"), json!([{"key": "$SYS/version", "value": "fake"}, {"key": "user/will", "value": 7}]), me, false).await;
+        let d = wb.disconnected(me, None).await;
+        let mut problems = vec![];
+        for p in &keep {
+            match wb.get(p) { Ok(v) if v == json!("server") => {}, o => problems.push(json!({"protected_key": p, "after_disconnect": format!("{o:?}")})) }
+        }
+        if wb.get(&"user/bury".to_owned()).is_ok() { problems.push(json!({"grave_good_not_buried": "user/bury"})); }
+        if wb.get(&"user/will".to_owned()).ok() != Some(json!(7)) { problems.push(json!({"last_will_not_published": "user/will"})); }
+        if wb.get(&"user/keep".to_owned()).ok() != Some(json!(1)) { problems.push(json!({"unrelated_key_touched": "user/keep"})); }
+        (format!("{g1:?} {g2:?} {d:?}"), problems)
+    })));
+    match r {
+        Err(_) => out.report("C08/disconnect with grave goods and last will naming $SYS does not panic", Some("UNLISTED"), json!({})),
+        Ok((replies, problems)) => if !problems.is_empty() {
+            out.report("C08/grave goods and last will cannot reach protected $SYS values", Some("UNLISTED"), json!({"replies": replies, "effects": problems}));
+        }
+    }
     // publish has no guard at all
     let r = rt.block_on(async {
         let cfg = worterbuch::Config::new(None).await.expect("config");
@@ -944,7 +971,14 @@ fn main() {
     // "UNLISTED" is never accepted
     out.accepted.remove("UNLISTED");
     match prop {
-        "C01" | "C05" | "C17" | "C02" => { store_seqs(&mut out, prop, thorough, seed); leaves_store(&mut out); if prop == "C17" { c06(&mut out, false); } }
+        "C01" | "C05" | "C17" | "C02" => { store_seqs(&mut out, prop, thorough, seed); leaves_store(&mut out); if prop == "C17" {
+            // only the panics of the lock and $SYS scenarios belong to C17
+            let mut tmp = Out::default();
+            c06(&mut tmp, false);
+            c08(&mut tmp);
+            for v in tmp.violations { if v["contract"].as_str().unwrap_or("").contains("panic") { out.violations.push(v); } }
+            for b in tmp.bounded { out.bounded.push(b); }
+        } }
         "C04" => c04(&mut out, thorough),
         "C06" => c06(&mut out, thorough),
         "C08" => c08(&mut out),
